@@ -82,6 +82,7 @@ func Walk(root Node, opts *WalkOptions) {
 	stack := []walkFrame{{Cursor: Cursor{node: root, index: -1}}}
 	cursor := new(Cursor)
 	for len(stack) > 0 {
+		verifYield("walk-step")
 		curr := stack[len(stack)-1]
 		stack = stack[:len(stack)-1]
 		if curr.post {
